@@ -1952,6 +1952,10 @@ def probes_for(pid):
     """whole-tree behaviour-preserving transformations (allfedsa/probes.py): re-emit every file; rename every local of one file"""
     from . import probes
     out = [{"pid": pid, "name": "probe:reformat", "probe": ("reformat", None), "expect": None}]
+    # whole-tree syntactic rewrites (if/else arms swapped under a negated test, range(0, n) -> range(n), comparisons turned round,
+    # positional <-> keyword arguments at calls whose callee is known)
+    for kind in ("swap-else", "range0", "flip-compare", "keywordise", "positionalise"):
+        out.append({"pid": pid, "name": "probe:" + kind, "probe": ("rewrite", kind), "expect": None})
     for p in probes.source_files(REPO):
         rel = os.path.relpath(p, REPO)
         if rel.endswith("__init__.py") or "plot" in rel:
@@ -1971,6 +1975,9 @@ def _run_probe(m, base_known):
         kind, rel = m["probe"]
         if kind == "reformat":
             probes.reformat_tree(tmp)
+        elif kind == "rewrite":
+            if probes.rewrite_tree(tmp, rel) == 0:
+                return m["name"], "silent", "nothing to rewrite"
         else:
             if probes.rename_file(tmp, rel) == 0:
                 return m["name"], "silent", "nothing to rename"
